@@ -238,4 +238,55 @@ example : (Basket.model.run Basket.init (fcSched ++ [(0, .invoke ⟨"deq", []⟩
 example : (Basket.absNodes (Basket.initW 3 2), Basket.liveNodes (Basket.initW 3 2), Basket.absQueue (Basket.initW 3 2),
     (Basket.initW 3 2).head, (Basket.initW 3 2).tail) = ([0, 1, 2], [2], [], 0, 2) := by decide +kernel
 
+/-! ### `C06_basket_pool_linearizable` on the concrete runs above -/
+
+/-- The constructor's queue is the warm-up state with no warm-up. -/
+theorem init_eq_initW : Basket.init = Basket.initW 3 0 := by
+  simp [Basket.init, Basket.initH, Basket.initW, Basket.dummy]
+
+/-- The theorem applied to `threeSched` (three overlapping enqueues on one tail node; at its end thread 2 has returned,
+    thread 0 is past its linearization point and has not returned, thread 1 has not linked its node yet): the run
+    exists, so no hypothesis is left. -/
+example : ∃ s os, Basket.model.run (Basket.initW 3 0) threeSched = some (s, os) ∧
+    ∃ extra : List (OpRec GOp GRet),
+      (∀ e ∈ extra, pendingOf os e.tid = some (e.op, e.inv) ∧ e.res = os.length ∧
+          Basket.postRet (s.pc e.tid) = some e.ret) ∧
+      extra.Pairwise (fun a b => a.tid ≠ b.tid) ∧
+      Linearizable QueueLinP.poolSpec (historyOf os ++ extra) := by
+  have h : (Basket.model.run (Basket.initW 3 0) threeSched).isSome = true := by decide +kernel
+  obtain ⟨⟨s, os⟩, hr⟩ := Option.isSome_iff_exists.mp h
+  exact ⟨s, os, hr, C06_basket_pool_linearizable 3 0 threeSched s os hr⟩
+
+set_option synthInstance.maxSize 4000 in
+/-- What the theorem talks about in that run: one completed operation (`enq 30`), and the pending `enq 10` of thread 0
+    is past its linearization point (`postRet` = its future result), the pending `enq 20` of thread 1 is not. -/
+example : (Basket.model.run (Basket.initW 3 0) threeSched).map
+    (fun r => (historyOf r.2, Basket.postRet (r.1.pc 0), Basket.postRet (r.1.pc 1), pendingOf r.2 0, pendingOf r.2 1)) =
+    some ([⟨2, ⟨"enq", [30]⟩, [1], 2, 28⟩], some [1], none, some (⟨"enq", [10]⟩, 0), some (⟨"enq", [20]⟩, 1)) := by
+  decide +kernel
+
+/-- The complete run (three enqueues, then the queue is drained): an instance of
+    `C06_basket_pool_linearizable_no_effect_pending` … -/
+example : ∃ s os, Basket.model.run (Basket.initW 3 0) (threeSched ++ threeRest ++ drain3) = some (s, os) ∧
+    ∃ extra : List (OpRec GOp GRet),
+      (∀ e ∈ extra, pendingOf os e.tid = some (e.op, e.inv) ∧ e.res = os.length ∧
+          Basket.postRet (s.pc e.tid) = some e.ret) ∧
+      extra.Pairwise (fun a b => a.tid ≠ b.tid) ∧
+      Linearizable QueueLinP.poolSpec (historyOf os ++ extra) := by
+  have h : (Basket.model.run (Basket.initW 3 0) (threeSched ++ threeRest ++ drain3)).isSome = true := by decide +kernel
+  obtain ⟨⟨s, os⟩, hr⟩ := Option.isSome_iff_exists.mp h
+  exact ⟨s, os, hr, C06_basket_pool_linearizable 3 0 _ s os hr⟩
+
+/-- … and the verified checker accepts its history (the one evaluated above) against the POOL specification; a history
+    in which 30 is dequeued twice is rejected (no duplication), and so is one that answers "empty" while 10 is present. -/
+example : (Basket.model.run (Basket.initW 3 0) (threeSched ++ threeRest ++ drain3)).map
+    (fun r => linCheck QueueLinP.poolSpec (historyOf r.2)) = some true ∧
+    linCheck QueueLinP.poolSpec
+      [⟨2, ⟨"enq", [30]⟩, [1], 2, 28⟩, ⟨1, ⟨"enq", [20]⟩, [1], 1, 37⟩, ⟨0, ⟨"enq", [10]⟩, [1], 0, 39⟩,
+       ⟨0, ⟨"deq", []⟩, [1, 30], 40, 50⟩, ⟨0, ⟨"deq", []⟩, [1, 30], 51, 64⟩, ⟨0, ⟨"deq", []⟩, [1, 10], 65, 81⟩] = false ∧
+    linCheck QueueLinP.poolSpec
+      [⟨2, ⟨"enq", [30]⟩, [1], 2, 28⟩, ⟨1, ⟨"enq", [20]⟩, [1], 1, 37⟩, ⟨0, ⟨"enq", [10]⟩, [1], 0, 39⟩,
+       ⟨0, ⟨"deq", []⟩, [1, 20], 40, 50⟩, ⟨0, ⟨"deq", []⟩, [1, 30], 51, 64⟩, ⟨0, ⟨"deq", []⟩, [0], 65, 81⟩] = false := by
+  decide +kernel
+
 end CdsVerif.Props.C06Basket
